@@ -229,6 +229,13 @@ package expand
 //@ loop 2 invariant [pad-covers-endpoints] width == 0 || (width >= len(fromLit) && width >= len(toLit))
 //@ loop 2 decreases ite(upward, uint64(to) - uint64(n), uint64(n) - uint64(to))
 
+// The wrapper that prepends the literal parts seen so far (`left`, one slice shared by every word of this expansion)
+// to a word of the recursion: the Parts array of the word it hands on is allocated here. Appending to `left` in place
+// would make all the words share `left`'s spare capacity, each overwriting the suffix of the one before.
+//@ func bracesSeqRec$1$1
+//@ props C16
+//@ onstore Word.Parts [own-array] fresh(value) || len(value) == 0
+
 // ---- C20: assignment operators: same value and same variable side effects as the plain operator,
 // old value read before the right-hand side is evaluated ----
 // The contracts of envGet, envSet, atoi and Arithm below only record, in ghost variables declared in
